@@ -321,14 +321,21 @@ pub fn near_miss_unit(ctx: &Ctx, rng: &mut Rng, o: &mut Out) {
         let (sname, mk) = *rng.pick(&STRICT);
         let strict_all = rng.chance(1, 4);
         for c in cands {
-          if strict_all {
-            for (sn, mk2) in STRICT {
-              let p = pat.clone().with_strictness(mk2());
-              o.op("match", json!({"t": tid, "node": ids.of(c), "p": pd, "s": sn}), run_match(&p, c, &ids));
+          let levels: Vec<(&str, fn() -> MatchStrictness)> = if strict_all { STRICT.to_vec() } else { vec![(sname, mk)] };
+          for (sn, mk2) in levels {
+            let p = pat.clone().with_strictness(mk2());
+            let r = run_match(&p, c, &ids);
+            let matched = r["m"] == json!(true);
+            o.op("match", json!({"t": tid, "node": ids.of(c), "p": pd, "s": sn}), r);
+            if matched {
+              // C03 oracle: the reported match must be justified by an alignment (Lean
+              // `Spec.alignsB`, run by the driver on the dumped tree)
+              o.op(
+                "oracle:aligns",
+                json!({"t": tid, "node": ids.of(c), "p": pd, "s": sn, "fp": format!("unjustified match strictness={sn}"), "pattern": text, "lang": src.lang.to_string()}),
+                json!(true),
+              );
             }
-          } else {
-            let p = pat.clone().with_strictness(mk());
-            o.op("match", json!({"t": tid, "node": ids.of(c), "p": pd, "s": sname}), run_match(&p, c, &ids));
           }
         }
       }
